@@ -216,24 +216,33 @@ def decl_module(d, ops_wanted):
                     'let e = serde_json::from_str::<std::collections::BTreeMap<String, Inner>>(&doc).ok().and_then(|m| m.into_iter().map(|(k, x)| %s.map(|t| format!("{}={}", k, t.into_inner().show()))).collect::<Option<Vec<_>>>()).map(|v| v.join(";")); '
                     'format!("{:?} ## - ## {:?}", r, e) }),' % (mko % "x"))
         if "Serialize" in info.traits:
-            arms.append('"ser" => guard(|| { let x = <Inner as Arg>::parse(arg); let t = match %s { Some(t) => t, None => return "rejected".to_string() }; '
-                        'let i: Inner = %s.unwrap().into_inner(); let mut out = String::new(); '
-                        'let jt = serde_json::to_string(&t); let ji = serde_json::to_string(&i); '
-                        'out.push_str(&format!("json={} ", match (&jt, &ji) { (Ok(a), Ok(b_)) => b(a == b_), (Err(_), Err(_)) => "1", _ => "0" })); '
-                        'let mt = rmp_serde::to_vec(&t); let mi = rmp_serde::to_vec(&i); '
-                        'out.push_str(&format!("mp={} ", match (&mt, &mi) { (Ok(a), Ok(b_)) => b(a == b_), (Err(_), Err(_)) => "1", _ => "0" })); '
-                        'let rt = ron::to_string(&t); let ri = ron::to_string(&i); '
-                        'out.push_str(&format!("ron={} ", match (&rt, &ri) { (Ok(a), Ok(b_)) => b(*a == format!("%s({})", b_) || *a == format!("({})", b_)), (Err(_), Err(_)) => "1", _ => "0" })); '
-                        'if let (Ok(a), Ok(bi)) = (&jt, &ji) { if let Ok(back) = serde_json::from_str::<Inner>(bi) { if back.same(&i) { '
-                        'out.push_str(&format!("rt_json={} ", match serde_json::from_str::<TT>(a) { Ok(v) => b(v.into_inner().same(&i)), Err(_) => "0" })); } } } '
-                        'if let (Ok(a), Ok(bi)) = (&mt, &mi) { if let Ok(back) = rmp_serde::from_slice::<Inner>(bi) { if back.same(&i) { '
-                        'out.push_str(&format!("rt_mp={} ", match rmp_serde::from_slice::<TT>(a) { Ok(v) => b(v.into_inner().same(&i)), Err(_) => "0" })); } } } '
-                        'if let (Ok(a), Ok(bi)) = (&rt, &ri) { if let Ok(back) = ron::from_str::<Inner>(bi) { if back.same(&i) { '
-                        'out.push_str(&format!("rt_ron={} ", match ron::from_str::<TT>(a) { Ok(v) => b(v.into_inner().same(&i)), Err(_) => "0" })); } } } '
-                        'if let Ok(ri2) = &ri { if let Ok(back) = ron::from_str::<Inner>(ri2) { if back.same(&i) { '
-                        'let named = ron::ser::to_string_pretty(&t, ron::ser::PrettyConfig::new().struct_names(true)); '
-                        'out.push_str(&format!("rt_ron_named={} ", match &named { Ok(a) => match ron::from_str::<TT>(a) { Ok(v) => b(v.into_inner().same(&i) && a.starts_with("%s(")), Err(_) => "0" }, Err(_) => "0" })); } } } '
-                        'out.trim_end().to_string() }),' % (mko % "x.clone()", mko % "x.clone()", sername, sername))
+            # "ser": the value comes from the constructor; "ser_conv": from the derived conversion
+            conv = None
+            if "TryFrom" in info.traits:
+                conv = "<TT as core::convert::TryFrom<Inner>>::try_from(%s).ok()"
+            elif "From" in info.traits:
+                conv = "Some(<TT as core::convert::From<Inner>>::from(%s))"
+            for opn, mkx in (("ser", mko), ("ser_conv", conv)):
+                if mkx is None:
+                    continue
+                arms.append('"%s" => guard(|| { let x = <Inner as Arg>::parse(arg); let t = match %s { Some(t) => t, None => return "rejected".to_string() }; '
+                            'let i: Inner = %s.unwrap().into_inner(); let mut out = String::new(); '
+                            'let jt = serde_json::to_string(&t); let ji = serde_json::to_string(&i); '
+                            'out.push_str(&format!("json={} ", match (&jt, &ji) { (Ok(a), Ok(b_)) => b(a == b_), (Err(_), Err(_)) => "1", _ => "0" })); '
+                            'let mt = rmp_serde::to_vec(&t); let mi = rmp_serde::to_vec(&i); '
+                            'out.push_str(&format!("mp={} ", match (&mt, &mi) { (Ok(a), Ok(b_)) => b(a == b_), (Err(_), Err(_)) => "1", _ => "0" })); '
+                            'let rt = ron::to_string(&t); let ri = ron::to_string(&i); '
+                            'out.push_str(&format!("ron={} ", match (&rt, &ri) { (Ok(a), Ok(b_)) => b(*a == format!("%s({})", b_) || *a == format!("({})", b_)), (Err(_), Err(_)) => "1", _ => "0" })); '
+                            'if let (Ok(a), Ok(bi)) = (&jt, &ji) { if let Ok(back) = serde_json::from_str::<Inner>(bi) { if back.same(&i) { '
+                            'out.push_str(&format!("rt_json={} ", match serde_json::from_str::<TT>(a) { Ok(v) => b(v.into_inner().same(&i)), Err(_) => "0" })); } } } '
+                            'if let (Ok(a), Ok(bi)) = (&mt, &mi) { if let Ok(back) = rmp_serde::from_slice::<Inner>(bi) { if back.same(&i) { '
+                            'out.push_str(&format!("rt_mp={} ", match rmp_serde::from_slice::<TT>(a) { Ok(v) => b(v.into_inner().same(&i)), Err(_) => "0" })); } } } '
+                            'if let (Ok(a), Ok(bi)) = (&rt, &ri) { if let Ok(back) = ron::from_str::<Inner>(bi) { if back.same(&i) { '
+                            'out.push_str(&format!("rt_ron={} ", match ron::from_str::<TT>(a) { Ok(v) => b(v.into_inner().same(&i)), Err(_) => "0" })); } } } '
+                            'if let Ok(ri2) = &ri { if let Ok(back) = ron::from_str::<Inner>(ri2) { if back.same(&i) { '
+                            'let named = ron::ser::to_string_pretty(&t, ron::ser::PrettyConfig::new().struct_names(true)); '
+                            'out.push_str(&format!("rt_ron_named={} ", match &named { Ok(a) => match ron::from_str::<TT>(a) { Ok(v) => b(v.into_inner().same(&i) && a.starts_with("%s(")), Err(_) => "0" }, Err(_) => "0" })); } } } '
+                            'out.trim_end().to_string() }),' % (opn, mkx % "x.clone()", mkx % "x.clone()", sername, sername))
     mk = "TT::try_new(%s).ok()" if info.has_validation else "Some(TT::new(%s))"
     # ---- comparison traits on pairs (C12, C13)
     cmpf = []
